@@ -7,7 +7,8 @@ use serde_json::{json, Value};
 use sta_rs::{MessageGenerator, SingleMeasurement};
 
 fn epochs() -> Vec<String> {
-  vec!["".into(), "t".into(), "tt".into(), "epoch".into(), "é".into(), "x".repeat(64)]
+  // the last five differ from "", "t" only by surrounding whitespace (ASCII and Unicode)
+  vec!["".into(), "t".into(), "tt".into(), "epoch".into(), "é".into(), "x".repeat(64), " ".into(), "t ".into(), " t".into(), "t\n".into(), "\u{a0}t\u{3000}".into()]
 }
 fn measurements() -> Vec<Vec<u8>> {
   vec![vec![], b"a".to_vec(), vec![0x00, 0xff, 0x80], prbytes(31, 32), prbytes(32, 1024), b"https://example.com/some/page".to_vec()]
@@ -193,8 +194,75 @@ fn run_cfg(cx: &mut CaseCx, case: &Value) {
       }
     });
   }
+  // distinct epochs must give distinct tags and keys through the wrapper too
+  {
+    let mut seen: std::collections::HashMap<(Vec<u8>, Vec<u8>), String> = std::collections::HashMap::new();
+    for e in &eps {
+      if let Some(c) = create(cx, &m, t, e, &d) {
+        let v: Value = serde_json::from_str(&star_wasm::create_share(&m, t, e)).unwrap_or(json!({}));
+        let tag = v["tag"].as_str().map(|x| x.as_bytes().to_vec()).unwrap_or_default();
+        if let Some(prev) = seen.insert((c.key.clone(), tag), e.clone()) {
+          cx.viol("C17/epochs-collide", format!("epochs {:?} and {:?} give the same key and tag through create_share", prev, e), json!({"t": t, "measurement": hexs(&m), "epochs": [prev, e]}));
+        }
+      }
+    }
+  }
   cx.outcome(format!("t={}", t));
   cx.sample(json!({"t": t, "measurement": hexs(&m), "epoch": epoch, "json_example": star_wasm::create_share(&m, t, &epoch).chars().take(80).collect::<String>()}));
+}
+
+
+/// measurements whose sharing key has boundary bytes (0x00 / 0xff first, middle, last): grouping must still work
+fn run_boundary_keys(cx: &mut CaseCx, case: &Value) {
+  let t = case["t"].as_u64().unwrap() as u32;
+  let lo = case["lo"].as_u64().unwrap();
+  let epoch = "e";
+  let mut hits = 0u64;
+  for i in lo..lo + 250 {
+    let m = format!("measurement-{}", i).into_bytes();
+    let n = t as usize + 1;
+    let mut shares: Vec<(String, Vec<u8>)> = vec![];
+    let mut key = String::new();
+    for k in 0..n {
+      getrandom::verif::set_group(k as u32 + 1);
+      let v: Value = serde_json::from_str(&star_wasm::create_share(&m, t, epoch)).unwrap_or(json!({}));
+      let sb = v["share"].as_str().and_then(|x| BASE64_STANDARD.decode(x).ok()).unwrap_or_default();
+      key = v["key"].as_str().unwrap_or("").to_string();
+      shares.push((v["share"].as_str().unwrap_or("").to_string(), sb));
+    }
+    let mut pts = vec![];
+    for (_, sb) in &shares {
+      if let Some(p) = crate::refmodel::parse_adss(sb) {
+        if p.s.y.len() == 1 && !pts.iter().any(|q: &(BigUint, BigUint)| q.0 == p.s.x) {
+          pts.push((p.s.x, p.s.y[0].clone()));
+        }
+      }
+    }
+    if pts.len() < t as usize {
+      continue;
+    }
+    let k = crate::refmodel::le24(&crate::refmodel::lagrange_at_zero(&pts[..t as usize]));
+    cx.count("keys_examined", 1);
+    if !(k[15] == 0 || k[0] == 0 || k[15] == 0xff || k[0] == 0xff || k[8] == 0 || k[..16].windows(2).any(|w| w == [0, 0])) {
+      continue;
+    }
+    hits += 1;
+    cx.nontrivial(fnv(&m) ^ t as u64);
+    let mut sels: Vec<Vec<usize>> = vec![(0..n).collect()];
+    for_each_subset(n, t as usize, |s| sels.push(s.to_vec()));
+    for sel in sels {
+      let joined = sel.iter().map(|&i| shares[i].0.clone()).collect::<Vec<_>>().join("\n");
+      cx.eval();
+      cx.count("states", 1);
+      cx.count("transitions", 1);
+      match guard(|| star_wasm::group_shares(&joined, epoch)) {
+        Ok(Some(got)) if got == key => cx.count("grouped_ok", 1),
+        other => cx.viol("C17/boundary-key/group_shares-wrong-key", format!("measurement {:?} (t={}) has sharing key {} (a zero/0xff boundary byte): group_shares over {} distinct shares returned {:?} instead of the clients' key", String::from_utf8_lossy(&m), t, hex(&k[..16]), sel.len(), other.map(|o| o.map(|s| s.chars().take(8).collect::<String>()))), json!({"measurement": String::from_utf8_lossy(&m), "t": t, "sel": sel})),
+      }
+    }
+  }
+  cx.count("boundary_keys_found", hits);
+  cx.sample(json!({"t": t, "measurements": format!("measurement-{}..{}", lo, lo + 250), "boundary_keys_found": hits}));
 }
 
 pub fn spec() -> PropSpec {
@@ -205,7 +273,7 @@ pub fn spec() -> PropSpec {
     thorough_budget_s: 900,
     checks: vec![Check {
       name: "wrapper",
-      rule: "per (measurement in {empty, 1 byte, non-UTF-8, 32 B, 1 KiB, URL}, t in 1..3 (thorough 4), epoch in {'', t, tt, epoch, é, 64 chars}): t+1 create_share calls: strict JSON with exactly key/share/tag, base64 lengths 16/valid share/32, key, tag and the share's deterministic fields equal to the core library's; EVERY index sequence of length 1..t+2 over the shares joined by newlines: group_shares under the clients' epoch returns the clients' key iff >= t distinct shares else nothing, under every other epoch never the clients' key, call order (right epoch first / wrong epoch first / right again) irrelevant; every sequence over a two-measurement pool in which neither reaches t yields nothing",
+      rule: "per (measurement in {empty, 1 byte, non-UTF-8, 32 B, 1 KiB, URL}, t in 1..3 (thorough 4), epoch in {'', t, tt, epoch, é, 64 chars, and five epochs differing from ''/t only by surrounding ASCII/Unicode whitespace}): t+1 create_share calls: strict JSON with exactly key/share/tag, base64 lengths 16/valid share/32, key, tag and the share's deterministic fields equal to the core library's; EVERY index sequence of length 1..t+2 over the shares joined by newlines: group_shares under the clients' epoch returns the clients' key iff >= t distinct shares else nothing, under every other epoch never the clients' key, call order (right epoch first / wrong epoch first / right again) irrelevant; every sequence over a two-measurement pool in which neither reaches t yields nothing",
       gen: |tier| {
         let mut v = vec![];
         for t in 1..=(if tier.thorough() { 4u64 } else { 3 }) {
@@ -225,6 +293,21 @@ pub fn spec() -> PropSpec {
       },
       run: run_cfg,
       min_counts: &[("grouped_ok", 1000), ("below_threshold_none", 100), ("wrong_epoch_no_key", 1000), ("mixture_none", 100)],
+    },
+    Check {
+      name: "boundary-keys",
+      rule: "boundary search on an internal value: among measurements 'measurement-<i>' (quick 1000, thorough 4000 per threshold 1..3) those whose sharing key has a 0x00/0xff first, middle or last byte or a 00 00 pair: every t-subset and the full set of their shares through group_shares must return the clients' key",
+      gen: |tier| {
+        let mut v = vec![];
+        for t in 1..=3u64 {
+          for c in 0..(if tier.thorough() { 16u64 } else { 4 }) {
+            v.push(json!({"t": t, "lo": c * 250}));
+          }
+        }
+        v
+      },
+      run: run_boundary_keys,
+      min_counts: &[("boundary_keys_found", 20)],
     }],
   }
 }
